@@ -7,6 +7,10 @@ import itertools
 from harness.common import Failure, Spec, coq_bytes, coq_list
 
 # case = {"ops": [["w", hex] | ["ws", [hex, ...], kind] | ["neg", hex1, hex] | ["raw", hex]], "lens": [int, ...]}
+#          ["bw", hex] / ["bws", [hex, ...], kind]: the same calls made on the TelnetBootstrapProtocol that sits on top
+#          of the transport (only with "stack": "boot"), i.e. by the protocol the bootstrap carries
+#   stack "plain" (default): the sending TelnetTransport carries a plain TelnetProtocol; "boot": it carries a
+#         TelnetBootstrapProtocol (a ProtocolTransportMixin, the manhole stacking) which carries an inner protocol
 #   kind  (optional, default "list") how the chunks are handed to writeSequence: "list", "tuple", "gen" (a generator)
 #         or "iter" (a list iterator) -- ITransport.writeSequence takes "an iterable of byte strings", which may be one-shot
 #   ops   write / writeSequence / requestNegotiation(about, data) calls made on the sending TelnetTransport;
@@ -30,17 +34,32 @@ def split_by(lens, bs: bytes):
     return out
 
 
+BASE = {"bw": "w", "bws": "ws"}
+
+
+def _k(o) -> str:
+    """the call an operation makes, whichever object it is made on"""
+    return BASE.get(o[0], o[0])
+
+
 def _send(case) -> bytes:
     from twisted.conch import telnet
+    from twisted.internet import protocol
     from twisted.internet.testing import StringTransport
 
     tr = StringTransport()
-    t = telnet.TelnetTransport(telnet.TelnetProtocol)
-    t.makeConnection(tr)
+    if case.get("stack", "plain") == "boot":
+        t = telnet.TelnetTransport(telnet.TelnetBootstrapProtocol, protocol.Protocol)
+        t.makeConnection(tr)
+        tr.clear()                      # the bootstrap's opening DO/WILL requests are not part of the case
+    else:
+        t = telnet.TelnetTransport(telnet.TelnetProtocol)
+        t.makeConnection(tr)
     for o in case["ops"]:
-        if o[0] == "w":
-            t.write(bytes.fromhex(o[1]))
-        elif o[0] == "ws":
+        target = t.protocol if o[0] in BASE else t
+        if _k(o) == "w":
+            target.write(bytes.fromhex(o[1]))
+        elif _k(o) == "ws":
             chunks = [bytes.fromhex(x) for x in o[1]]
             kind = o[2] if len(o) > 2 else "list"
             if kind == "tuple":
@@ -51,7 +70,7 @@ def _send(case) -> bytes:
                 seq = iter(chunks)
             else:
                 seq = chunks
-            t.writeSequence(seq)
+            target.writeSequence(seq)
         elif o[0] == "neg":
             t.requestNegotiation(bytes.fromhex(o[1]), bytes.fromhex(o[2]))
         else:
@@ -120,9 +139,9 @@ def ref_escape(p: bytes) -> bytes:
 
 
 def _op_payload(o) -> bytes:
-    if o[0] == "w":
+    if _k(o) == "w":
         return bytes.fromhex(o[1])
-    if o[0] == "ws":
+    if _k(o) == "ws":
         return b"".join(bytes.fromhex(x) for x in o[1])
     return b""
 
@@ -133,7 +152,7 @@ def _payload(case) -> bytes:
 
 def ref_wire(o) -> bytes:
     """reference wire form of one operation, written from RFC 854/855 (independent of the model)"""
-    if o[0] in ("w", "ws"):
+    if _k(o) in ("w", "ws"):
         return ref_escape(_op_payload(o))
     if o[0] == "neg":
         return b"\xff\xfa" + bytes.fromhex(o[1]) + bytes.fromhex(o[2]).replace(b"\xff", b"\xff\xff") + b"\xff\xf0"
@@ -142,7 +161,7 @@ def ref_wire(o) -> bytes:
 
 def ref_events(o):
     """what a well-formed operation must deliver (flattened), or None when the reference does not say"""
-    if o[0] in ("w", "ws"):
+    if _k(o) in ("w", "ws"):
         p = _op_payload(o)
         return list(p) if CR not in p else None
     if o[0] == "neg":
@@ -176,17 +195,22 @@ def oracle(case, obs):
     w, evs, st = _parse(obs)
     ops = case["ops"]
     p = _payload(case)
-    data_only = all(o[0] in ("w", "ws") for o in ops)
+    data_only = all(_k(o) in ("w", "ws") for o in ops)
+    stack = case.get("stack", "plain")
     # (1) wire form: IAC doubled, LF sent as CR LF, nothing else touched
     want = b"".join(ref_wire(o) for o in ops)
     if w != want:
         cls = "write"
         for o in ops:           # which call produced the deviating bytes
-            if _send({"ops": [o]}) != ref_wire(o):
-                cls = {"ws": "writeSequence", "w": "write", "neg": "requestNegotiation", "raw": "raw"}[o[0]]
-                if o[0] == "ws" and len(o) > 2 and o[2] in ("gen", "iter") \
-                        and _send({"ops": [["ws", o[1], "list"]]}) == ref_wire(o):
+            if _send({"stack": stack, "ops": [o]}) != ref_wire(o):
+                cls = {"ws": "writeSequence", "w": "write", "neg": "requestNegotiation", "raw": "raw"}[_k(o)]
+                if _k(o) == "ws" and len(o) > 2 and o[2] in ("gen", "iter") \
+                        and _send({"stack": stack, "ops": [[o[0], o[1], "list"]]}) == ref_wire(o):
                     cls = "writeSequence-one-shot-iterable"     # the same chunks as a list are written correctly
+                if o[0] in BASE:
+                    cls = "bootstrap-" + cls                     # the call was made on the TelnetBootstrapProtocol
+                elif stack == "boot" and _send({"ops": [o]}) == ref_wire(o):
+                    cls += "-under-bootstrap"                    # the same call is fine when a plain protocol is on top
                 break
         return Failure(case, f"wire bytes {w.hex()} are not the escaped payload {want.hex()}", cls + "-wire-not-escaped")
     if any(e == "D:" for e in evs):
@@ -274,6 +298,19 @@ def _data_op(rng, cr):
             rng.choice(SEQ_KINDS)]
 
 
+def _stacked(rng, case, p=0.4):
+    """with probability p the sender carries a TelnetBootstrapProtocol; each data call is then made either on the
+    transport or on the bootstrap"""
+    if rng.random() >= p:
+        return case
+    ops = []
+    for o in case["ops"]:
+        if o[0] in ("w", "ws") and rng.random() < 0.5:
+            o = ["b" + o[0]] + o[1:]
+        ops.append(o)
+    return {**case, "stack": "boot", "ops": ops}
+
+
 def _cmd_op(rng):
     k = rng.randrange(3)
     if k == 0:
@@ -291,6 +328,10 @@ RAW_PIECES = [b"\xff\xfb\x01", b"\xff\xfd\x03", b"\xff\xfe\xff", b"\xff\xfc\x00"
 
 
 def gen(rng, tier):
+    return [_stacked(rng, c) for c in _gen(rng, tier)]
+
+
+def _gen(rng, tier):
     cases = []
     quick = tier == "quick"
     # (a) CR-free payloads in random write / writeSequence groupings, random segmentation
@@ -345,6 +386,9 @@ def corpus():
     return [
         {"ops": [["ws", ["61ff", "f40a62"]]], "lens": []},           # IAC IP through writeSequence
         {"ops": [["ws", ["0a"]]], "lens": []},                       # LF through writeSequence
+        # the manhole stacking: a TelnetBootstrapProtocol on top; writes at the transport and through the bootstrap
+        {"stack": "boot", "ops": [["w", "6f6e650a74776f0a"], ["ws", ["610a", "ff62"], "tuple"]], "lens": []},
+        {"stack": "boot", "ops": [["bw", "780a79ff"], ["bws", ["780a", "79ff"], "list"]], "lens": [2, 0, 3]},
         {"ops": [["ws", ["61", "62ff", "63"], "gen"]], "lens": []},   # one-shot iterable, escaping needed after chunk 1
         {"ops": [["ws", ["61", "62"], "iter"], ["w", "63"]], "lens": []},   # one-shot iterable, nothing to escape
         {"ops": [["w", "61ff0a62"], ["ws", ["ff", "ff"]]], "lens": [0, 0, 0, 0, 0, 0, 0, 0, 0, 0]},
@@ -361,9 +405,9 @@ def corpus():
 
 def to_coq(case):
     def op(o):
-        if o[0] == "w":
+        if _k(o) == "w":
             return f"Write {coq_bytes(bytes.fromhex(o[1]))}"
-        if o[0] == "ws":
+        if _k(o) == "ws":
             return "WriteSeq " + coq_list([coq_bytes(bytes.fromhex(x)) for x in o[1]], "(list N)")
         if o[0] == "neg":
             a = bytes.fromhex(o[1])
@@ -385,18 +429,18 @@ def shrink(case):
         yield {**case, "ops": ops[:i] + ops[i + 1:]}
     for i, o in enumerate(ops):
         rest = lambda new: {**case, "ops": ops[:i] + [new] + ops[i + 1:]}
-        if o[0] in ("w", "raw") and len(o[1]) > 2:
+        if o[0] in ("w", "bw", "raw") and len(o[1]) > 2:
             for k in range(0, len(o[1]), 2):
                 yield rest([o[0], o[1][:k] + o[1][k + 2:]])
         if o[0] == "neg" and len(o[2]) > 0:
             for k in range(0, len(o[2]), 2):
                 yield rest(["neg", o[1], o[2][:k] + o[2][k + 2:]])
-        if o[0] == "ws":
+        if _k(o) == "ws":
             for k in range(len(o[1])):
-                yield rest(["ws", o[1][:k] + o[1][k + 1:]] + o[2:])
+                yield rest([o[0], o[1][:k] + o[1][k + 1:]] + o[2:])
                 if len(o[1][k]) > 2:
-                    yield rest(["ws", o[1][:k] + [o[1][k][2:]] + o[1][k + 1:]] + o[2:])
-                    yield rest(["ws", o[1][:k] + [o[1][k][:-2]] + o[1][k + 1:]] + o[2:])
+                    yield rest([o[0], o[1][:k] + [o[1][k][2:]] + o[1][k + 1:]] + o[2:])
+                    yield rest([o[0], o[1][:k] + [o[1][k][:-2]] + o[1][k + 1:]] + o[2:])
     if lens:
         yield {**case, "lens": []}
         for i in range(len(lens)):
@@ -404,7 +448,7 @@ def shrink(case):
 
 
 def histogram(case, obs):
-    kinds = {o[0] for o in case["ops"]}
+    kinds = {_k(o) for o in case["ops"]}
     if kinds <= {"w", "ws"}:
         k = "data-cr" if CR in _payload(case) else "data-crfree"
     elif all(ref_events(o) is not None for o in case["ops"]):
@@ -412,7 +456,8 @@ def histogram(case, obs):
     else:
         k = "raw/malformed"
     k += "+seq" if "ws" in kinds else ""
-    k += "(one-shot)" if any(o[0] == "ws" and len(o) > 2 and o[2] in ("gen", "iter") for o in case["ops"]) else ""
+    k += "(one-shot)" if any(_k(o) == "ws" and len(o) > 2 and o[2] in ("gen", "iter") for o in case["ops"]) else ""
+    k += " boot" if case.get("stack") == "boot" else ""
     k += " split" if case["lens"] else " whole"
     return k
 
@@ -426,7 +471,7 @@ SPEC = Spec(
     nontrivial=lambda c, o: ("ff" in o.split(" e=")[0]) or ("0d0a" in o) or (" C:" in o) or (" S:" in o) or ("!" in o),
     histogram=histogram,
     rule="CR-free and CR-bearing payloads over a hot alphabet (IAC, LF, CR, NUL, SB, SE, WILL..DONT, simple commands) "
-         "in random write/writeSequence groupings (writeSequence given a list, tuple, generator or iterator, chosen per call) with random / byte-by-byte / whole delivery; every payload of "
+         "in random write/writeSequence groupings (40% of the cases with a TelnetBootstrapProtocol stacked on the sending transport, each data call then made on the transport or on the bootstrap; writeSequence given a list, tuple, generator or iterator, chosen per call) with random / byte-by-byte / whole delivery; every payload of "
          "length <= 3 (quick, longest 35% sampled; thorough <= 4 over 8 symbols) with a two-way wire split; well-formed "
          "mixed streams (data, simple and option commands, requestNegotiation with IAC-bearing payloads); wire streams "
          "assembled from malformed escapes, empty/truncated subnegotiations and CR sequences; "
@@ -434,5 +479,7 @@ SPEC = Spec(
     trusted=["hand-written model coq/C38/Model.v (tied by this correspondence run only)",
              "bytes.replace with a one-byte pattern = flat_map (validated by the wire comparison on every case)",
              "the receiving protocol refuses every option; negotiation replies are not observed here (C39)"],
-    assumptions=["writeSequence modelled as repaired by fixes/C38-writesequence-escaping.patch (= write(b''.join(seq)))"],
+    assumptions=["writeSequence modelled as repaired by fixes/C38-writesequence-escaping.patch (= write(b''.join(seq)))",
+                 "write/writeSequence made on a TelnetBootstrapProtocol stacked on the transport are modelled as the same call "
+                 "on the transport (repaired by fixes/C38-bootstrap-double-newline.patch; the pinned bootstrap write sends CR CR LF)"],
 )
